@@ -1745,6 +1745,16 @@ def run(ctx):
         for f in F:
             if f["key"] not in first or len(hist) < len(first[f["key"]][0]):
                 first[f["key"]] = (hist, f)
+    # the entry-point table nev_prepare* looks functions up in ("any mix of its entry points"):
+    # coq/Hash/FuncTabStatements.v + correspondence with back/functab.c across collisions and growth
+    try:
+        from checks.parts import hashtab
+        ft = hashtab.run_functab(ctx)
+        ctx.notes["functab"] = {k: v for k, v in ft.items() if k in ("evaluations", "nontrivial", "size_used_by_module_new", "rule", "cases", "operations")}
+    except common.BuildError:
+        raise
+    except Exception as ex:
+        ctx.correspondence_broken("functab-part-crashed", repr(ex)[:400])
     ctx.count(evaluations=tot["histories"], nontrivial=len(distinct))
     ctx.coverage["rule"] = ("API histories from VERIF_SEED over corpus/C15/pool (%d valid multi-entry programs, %d invalid sources of which %d "
                             "are pool sources cut off in each scanner situation, a missing file): kinds mixed / compile-heavy / two "
